@@ -149,32 +149,60 @@ func c09(c *core.Ctx) {
 	// C09.blocks: CBC works on whole blocks only; crypto/cipher panics otherwise
 	{
 		c.Rule("C09.blocks", "every (cipher.BlockMode).CryptBlocks(dst, src) in package uapolicy is dominated by `len(src) % blockSize == 0`: a chunk truncated to a length that is not a multiple of the block size yields a security error, not the `input not full blocks` panic of crypto/cipher in the receive goroutine", 2)
+		wholeBlocks := func(at ssa.Instruction, src string) bool {
+			for _, fact := range ssax.FactsAt(at) {
+				x, y, op := fact.X, fact.Y, fact.Op
+				if _, isK := ssax.ConstInt(x); isK {
+					x, y, op = y, x, ssax.SwapOp(op)
+				}
+				k, isK := ssax.ConstInt(y)
+				bo, isRem := ssax.Strip(x).(*ssa.BinOp)
+				if !isK || !isRem || bo.Op != token.REM {
+					continue
+				}
+				if ssax.Path(bo.X) != "len("+src+")" {
+					continue
+				}
+				if (op == token.EQL && k == 0) || (op == token.LEQ && k == 0) || (op == token.LSS && k == 1) {
+					return true
+				}
+			}
+			return false
+		}
+		// the call may sit in a private helper that is handed the checked slice: then the obligation is one per
+		// call site of the helper (the check belongs to whoever received the data)
+		var check func(at ssa.CallInstruction, src ssa.Value, depth int)
+		check = func(at ssa.CallInstruction, src ssa.Value, depth int) {
+			f := at.Parent()
+			sp := ssax.Path(src)
+			ok := wholeBlocks(at, sp)
+			if !ok && depth < 2 {
+				if par, isPar := ssax.Strip(src).(*ssa.Parameter); isPar {
+					idx := -1
+					for i, q := range f.Params {
+						if q == par {
+							idx = i
+						}
+					}
+					if callers := ssax.PrivateCallers(f); idx >= 0 && len(callers) > 0 {
+						for _, cc := range callers {
+							if idx < len(cc.Call.Args) {
+								check(cc, cc.Call.Args[idx], depth+1)
+							}
+						}
+						return
+					}
+				}
+			}
+			c.Ob("C09.blocks", fname(f)+"·CryptBlocks("+sp+")", pos(c, at), ok, "len("+sp+") is a multiple of the block size on every path to the call: "+boolStr(ok))
+		}
 		for _, f := range libFns(c, "uapolicy") {
 			for _, call := range ssax.Calls(f) {
 				cc := call.Common()
 				if !cc.IsInvoke() || cc.Method.Name() != "CryptBlocks" || len(cc.Args) != 2 {
 					continue
 				}
-				src := ssax.Path(cc.Args[1])
-				ok := false
-				for _, fact := range ssax.FactsAt(call) {
-					x, y, op := fact.X, fact.Y, fact.Op
-					if _, isK := ssax.ConstInt(x); isK {
-						x, y, op = y, x, ssax.SwapOp(op)
-					}
-					k, isK := ssax.ConstInt(y)
-					bo, isRem := ssax.Strip(x).(*ssa.BinOp)
-					if !isK || !isRem || bo.Op != token.REM {
-						continue
-					}
-					if ssax.Path(bo.X) != "len("+src+")" {
-						continue
-					}
-					if (op == token.EQL && k == 0) || (op == token.LEQ && k == 0) || (op == token.LSS && k == 1) {
-						ok = true
-					}
-				}
-				c.Ob("C09.blocks", fname(f)+"·CryptBlocks("+src+")", pos(c, call), ok, "len("+src+") is a multiple of the block size on every path to the call: "+boolStr(ok))
+				check(call, cc.Args[1], 0)
 			}
 		}
 	}
